@@ -7,6 +7,7 @@ import Driver.Units
 import Driver.Timers
 import Driver.EmfSpec
 import Driver.Aggregation
+import Driver.KeepAlive
 /-!
 `driver <engine>`: reads one request per line on stdin, prints one reply per line.
 Every engine is a pure function `String → String` of the request line (stateful models receive the
@@ -22,7 +23,8 @@ def engines : List (String × (String → String)) := [
   ("units", Driver.Units.handle),
   ("timers", Driver.Timers.handle),
   ("emfspec", Driver.EmfSpec.handle),
-  ("aggregation", Driver.Aggregation.handle)
+  ("aggregation", Driver.Aggregation.handle),
+  ("keepalive", Driver.KeepAlive.handle)
 ]
 
 partial def loop (h : IO.FS.Stream) (out : IO.FS.Stream) (f : String → String) : IO Unit := do
